@@ -8,21 +8,24 @@ import json, os, subprocess, sys, tempfile, time, re, shutil
 V = os.path.dirname(os.path.dirname(os.path.abspath(__file__)))
 REPO = os.environ.get("GOVC_REPO", "/repo")
 ENV = dict(os.environ, GOFLAGS="-mod=mod", GOPROXY="off", GOSUMDB="off", GOTOOLCHAIN="local")
-TREES = {"rbt": ("trees/redblacktree", "rbt.go.tmpl"), "avl": ("trees/avltree", "avl.go.tmpl"), "btree": ("trees/btree", "btree.go.tmpl")}
+TREES = {"rbt": ("trees/redblacktree", "rbt.go.tmpl"), "avl": ("trees/avltree", "avl.go.tmpl"), "btree": ("trees/btree", "btree.go.tmpl"),
+         "heap": ("trees/binaryheap", "heap.go.tmpl"), "lhm": ("maps/linkedhashmap", "lhm.go.tmpl")}
 SCOPE = {
  "quick":    {"rbt": dict(EXH_KEYS=4, EXH_DEPTH=5, PERM_N=7, PERM_REMOVALS=2, PERM_EXTRA=2, DEEP_MIN=8, DEEP_MAX=20, DEEP_REMOVALS=2),
               "avl": dict(EXH_KEYS=4, EXH_DEPTH=5, PERM_N=7, PERM_REMOVALS=2, PERM_EXTRA=2, DEEP_MIN=8, DEEP_MAX=20, DEEP_REMOVALS=2),
-              "btree": dict(EXH_KEYS=4, EXH_DEPTH=5, PERM_N=8, PERM_REMOVALS=1, PERM_EXTRA=2, DEEP_MIN=8, DEEP_MAX=16, DEEP_REMOVALS=2, ORDERS="3, 4, 5")},
+              "btree": dict(EXH_KEYS=4, EXH_DEPTH=5, PERM_N=8, PERM_REMOVALS=1, PERM_EXTRA=2, DEEP_MIN=8, DEEP_MAX=16, DEEP_REMOVALS=2, ORDERS="3, 4, 5"),
+              "heap": dict(HEAP_DEPTH=5, HEAP_DEEP=40), "lhm": dict(LHM_DEPTH=5)},
  "thorough": {"rbt": dict(EXH_KEYS=4, EXH_DEPTH=6, PERM_N=8, PERM_REMOVALS=2, PERM_EXTRA=2, DEEP_MIN=8, DEEP_MAX=28, DEEP_REMOVALS=3),
               "avl": dict(EXH_KEYS=4, EXH_DEPTH=6, PERM_N=8, PERM_REMOVALS=2, PERM_EXTRA=2, DEEP_MIN=8, DEEP_MAX=28, DEEP_REMOVALS=3),
-              "btree": dict(EXH_KEYS=4, EXH_DEPTH=6, PERM_N=8, PERM_REMOVALS=2, PERM_EXTRA=2, DEEP_MIN=8, DEEP_MAX=12, DEEP_REMOVALS=2, ORDERS="3, 4, 5, 6, 7")},
+              "btree": dict(EXH_KEYS=4, EXH_DEPTH=6, PERM_N=8, PERM_REMOVALS=2, PERM_EXTRA=2, DEEP_MIN=8, DEEP_MAX=12, DEEP_REMOVALS=2, ORDERS="3, 4, 5, 6, 7"),
+              "heap": dict(HEAP_DEPTH=6, HEAP_DEEP=80), "lhm": dict(LHM_DEPTH=6)},
 }
 # which stand-ins back which property
-BY_PROP = {"C01": ["rbt", "avl", "btree"], "C02": ["rbt", "avl", "btree"], "C07": ["rbt", "avl", "btree"], "C08": ["btree"],
+BY_PROP = {"C01": ["rbt", "avl", "btree"], "C02": ["rbt", "avl", "btree"], "C07": ["rbt", "avl", "btree"], "C08": ["btree", "heap"],
            "C15": ["rbt", "avl", "btree"], "C17": ["rbt", "avl", "btree"],
            # the extras (bsCheckExtras): B-tree JSON (outside the deductive subset), String() of the three trees, B-tree Keys()/Values()
            # snapshots, purity of the B-tree's read-only operations
-           "C11": ["btree"], "C12": ["btree"], "C16": ["avl", "btree"], "C18": ["rbt", "avl", "btree"]}
+           "C06": ["heap"], "C11": ["btree", "lhm"], "C12": ["btree", "lhm"], "C16": ["avl", "btree"], "C18": ["rbt", "avl", "btree"]}
 
 def run_tree(tree, tier, tmp):
     pkgdir, tmpl = TREES[tree]
@@ -38,6 +41,18 @@ def run_tree(tree, tier, tmp):
                        cwd=REPO, env=ENV, capture_output=True, text=True)
     return r.returncode, r.stdout + r.stderr, time.time() - t0, src
 
+def known_findings(prop):
+    """finding: lines of known_findings.txt whose obligation is a bounded probe (bounded:<tag>) of this property"""
+    out = {}
+    try:
+        for l in open(os.path.join(V, "known_findings.txt")):
+            m = re.match(r"finding:\s+property=(\S+)\s+obligation=bounded:(\S+)\s+(.*)", l)
+            if m and m.group(1) == prop:
+                out[m.group(2)] = m.group(3).strip()
+    except OSError:
+        pass
+    return out
+
 def main():
     prop, tier = sys.argv[1], sys.argv[2]
     trees = sys.argv[3:] or BY_PROP.get(prop, [])
@@ -52,7 +67,19 @@ def main():
         for tree, (rc, out, secs, src) in outs:
             ok = re.search(r"BOUNDED-OK .*", out)
             vio = re.search(r"BOUNDED-VIOLATION (.*)", out)
-            entry = {"stand_in_for": {"rbt": "redblacktree Remove and colour layer (deleteCase1-6, balance)", "avl": "avltree put/remove/removeMin/putFix/removeFix/rotations",
+            # probes of recorded defects: listed ones are printed as KNOWN-FINDING, an unlisted one is a violation
+            kf = known_findings(prop)
+            unlisted = []
+            for tag, what in re.findall(r"BOUNDED-KNOWN (\S+) (.*)", out):
+                if tag in kf:
+                    print("KNOWN-FINDING: property=%s bounded:%s :: %s" % (prop, tag, what[:300]))
+                else:
+                    unlisted.append("%s %s" % (tag, what))
+            if unlisted and not vio:
+                vio = re.search(r"(.*)", "probe of a recorded defect fails but is not listed for this property: " + "; ".join(unlisted))
+                ok = None
+            entry = {"stand_in_for": {"heap": "binaryheap Values()/iterator Value(): permutation of the contents also among equal-comparing elements",
+                                      "lhm": "linkedhashmap ToJSON/FromJSON (hand-written encoder/decoder outside the deductive subset)", "rbt": "redblacktree Remove and colour layer (deleteCase1-6, balance)", "avl": "avltree put/remove/removeMin/putFix/removeFix/rotations",
                                       "btree": "btree Put/Remove (insert/split/delete/rebalance), navigation, iterator, JSON, String, snapshots, purity of observers"}[tree],
                      "level": "bounded", "seconds": round(secs, 1)}
             if ok:
